@@ -118,7 +118,13 @@ fn derive_help(target: &TargetType, groups: &[CommandGroup]) -> TokenStream {
             let ty = &group.field_type;
             if i > 0 {
                 quote! {
-                    .or_else(|_| <#ty as _cli::service::Help>::command_help(parent, command.clone(), writer))
+                    .or_else(|err| match err {
+                        // only unknown command can be handled by next group, other errors must be reported
+                        _cli::service::HelpError::UnknownCommand => {
+                            <#ty as _cli::service::Help>::command_help(parent, command.clone(), writer)
+                        }
+                        err => Err(err),
+                    })
                 }
             } else {
                 quote! {
